@@ -806,9 +806,9 @@ class C09(PairProp):
     id = "C09"
     cone = ["Properties/C09.vo"]
     prop_file = "Properties/C09.v"
-    theorems = ["C09_false_branch", "C09_ignored_region", "C09_true_branch_delimiters_partial", "C09_end_line_only_pops", "C09_restricted_variable_definition_is_absent_partial", "C09_restricted_macro_definition_is_absent", "C09_restricted_definition_example", "C09_examples", "D10b_format_restricted"]
+    theorems = ["C09_false_branch", "C09_ignored_region", "C09_true_branch_delimiters_partial", "C09_end_line_only_pops", "C09_restricted_variable_definition_is_absent_partial", "C09_restricted_macro_definition_is_absent", "C09_restricted_include_is_absent", "C09_restricted_filter_line_is_absent", "C09_restricted_definition_example", "C09_examples", "D10b_format_restricted"]
     partial = ["C09_false_branch is the state-level statement (state after the block = state before it up to dispatch registers and diagnostics, for every body and nesting); lifting it to byte equality of whole documents needs 'no handler reads the diagnostics or the stale registers', which is tied by S-pairs, not proved",
-               "C09_true: proved for the two delimiter lines (C09_true_branch_delimiters_partial: the #if line of a true conditional only pushes one scope, the matching #; only pops it, for every body); that the processing of the body does not depend on the extra scope is tied by S-pairs, not proved", "C09_format (format-restricted constructs): proved for the variable definition (C09_restricted_variable_definition_is_absent_partial) and for the macro definition with its whole body (C09_restricted_macro_definition_is_absent); the others (filter lines and blocks, includes, parameter and tag declarations) tied by S-pairs in four formats, not proved"]
+               "C09_true: proved for the two delimiter lines (C09_true_branch_delimiters_partial: the #if line of a true conditional only pushes one scope, the matching #; only pops it, for every body); that the processing of the body does not depend on the extra scope is tied by S-pairs, not proved", "C09_format (format-restricted constructs): proved for the variable definition (C09_restricted_variable_definition_is_absent_partial) for the macro definition with its whole body (C09_restricted_macro_definition_is_absent), for the include line and, in the rendering pass, the filter line (C09_restricted_include_is_absent, C09_restricted_filter_line_is_absent); the others (filter blocks, parameter and tag declarations) tied by S-pairs in four formats, not proved"]
     describe_pairs = "document with a conditional / format-restricted construct vs the document with it elided"
     BODY = [["t"], [".Sm w"], [".Bm", "x", ".Em"], [".#if 1", "n", ".#;"], [".#if 0", "n", ".#;"], [".Ch C"], [".#dv v z"], ["\\*[v]"], [".Bl", ".It a", ".El"], [".Lk u"], [".P"], [".#if -f latex", "q", ".#;", "r"]]
     CTX = [([], []), ([".Bm", ".Lk u"], [".Em"]), (["a"], ["b"]), ([".#dv v 1", ".Bl", ".It"], [".El"]), ([".Bm"], [".Em", ".Sx x"]),
